@@ -102,6 +102,10 @@ func genC06(t *rapid.T) c06Case {
 		}
 	}
 	dirs := []string{"", "inc1", "deps/inc2", "inc1/nested"}
+	if rapid.IntRange(0, 2).Draw(t, "sibling-dir") == 0 {
+		// an included project next to the project directory, in a directory whose name starts with its name
+		dirs[2] = "../proj-inc2"
+	}
 	type group struct {
 		dir          string            // include's project directory (relative to the main project directory)
 		file         string            // main compose file of the group
@@ -174,6 +178,23 @@ func genC06(t *rapid.T) c06Case {
 			sm := written.(map[string]any)
 			interpolateSomeLeaves(t, sm, fmt.Sprintf("G%d_%s", g, strings.ToUpper(strings.ReplaceAll(name, "-", "_"))), groups[g].defs)
 			vm := v.(map[string]any)
+			if rapid.IntRange(0, 2).Draw(t, "emptyparent") == 0 {
+				// the parent environment sets the variable to the empty string: that is a definition, the
+				// included project's own value must not replace it
+				lw, _ := sm["labels"].(map[string]any)
+				lp, _ := vm["labels"].(map[string]any)
+				if (lw != nil || sm["labels"] == nil) && (lp != nil || vm["labels"] == nil) {
+					if lw == nil {
+						lw, lp = map[string]any{}, map[string]any{}
+						sm["labels"], vm["labels"] = lw, lp
+					}
+					lw["probe.empty"] = "x${EMPTY_IN_PARENT}x${EMPTY_IN_PARENT-unset}"
+					lp["probe.empty"] = "xx"
+					cs.Env["EMPTY_IN_PARENT"] = ""
+					groups[g].defs["EMPTY_IN_PARENT#decoy"] = "from-included-env"
+					cs.Features = append(cs.Features, "parent-sets-empty-value")
+				}
+			}
 			if rapid.IntRange(0, 2).Draw(t, "passthrough") == 0 {
 				// an environment entry without a value takes it from the included project's environment
 				key := fmt.Sprintf("PASS_G%d_%s", g, strings.ToUpper(strings.NewReplacer("-", "_", ".", "_").Replace(name)))
@@ -232,6 +253,10 @@ func genC06(t *rapid.T) c06Case {
 		var lines []string
 		for _, k := range sortedStrKeys(gr.defs) {
 			if strings.HasSuffix(k, "#literal") {
+				continue
+			}
+			if strings.HasSuffix(k, "#decoy") {
+				lines = append(lines, strings.TrimSuffix(k, "#decoy")+"="+gr.defs[k])
 				continue
 			}
 			v := gr.defs[k]
@@ -363,7 +388,12 @@ func dotenvQuote(v string) string {
 }
 
 func c06Load(files []memFile, env map[string]string) loadResult {
-	lc := loadCase{Files: files, Main: []string{"compose.yaml"}, Env: env}
+	// everything lives in `proj/` (the working directory) or next to it
+	placed := make([]memFile, len(files))
+	for i, f := range files {
+		placed[i] = memFile{Name: filepath.Join("proj", f.Name), Content: f.Content, Dir: f.Dir}
+	}
+	lc := loadCase{Files: placed, Main: []string{"proj/compose.yaml"}, WorkDir: "proj", Env: env}
 	root, cleanup, err := lc.materialise()
 	if err != nil {
 		return loadResult{Err: err}
